@@ -8,6 +8,13 @@ EXTENDS Integers, Sequences, FiniteSets, TLC
 MaxOr0(S) == IF S = {} THEN 0 ELSE CHOOSE x \in S : \A y \in S : x >= y
 SizeOf(sheet) == [cols |-> MaxOr0({x.c : x \in sheet.cells}), rows |-> MaxOr0({x.r : x \in sheet.cells})]
 At(sheet, c, r) == IF \E x \in sheet.cells : x.c = c /\ x.r = r THEN (CHOOSE x \in sheet.cells : x.c = c /\ x.r = r).k ELSE "blank"
+\* The tabs of a workbook file may also hold chart sheets: they are not worksheets, carry no cells and take no part in the
+\* titles, indices and sizes the reader delivers.  chartAt = 0: no chart sheet; k > 0: one chart sheet just before the k-th worksheet.
+Tabs(wb, chartAt) == IF chartAt = 0 THEN [i \in 1..Len(wb) |-> [chart |-> FALSE, title |-> wb[i].title]]
+                     ELSE [i \in 1..(Len(wb) + 1) |-> IF i < chartAt THEN [chart |-> FALSE, title |-> wb[i].title]
+                                                     ELSE IF i = chartAt THEN [chart |-> TRUE, title |-> "Chart"]
+                                                     ELSE [chart |-> FALSE, title |-> wb[i - 1].title]]
+WorksheetTitles(tabs) == LET ws == SelectSeq(tabs, LAMBDA t : ~t.chart) IN [i \in 1..Len(ws) |-> ws[i].title]
 WellFormed(sheet) == \A x, y \in sheet.cells : (x.c = y.c /\ x.r = y.r) => x = y
 
 \* ---- the safety gate (C19): texts are sequences of character codes ----
